@@ -20,6 +20,7 @@ func TestSim(t *testing.T) {
 	simrt.Main(t,
 		&simrt.Harness{Name: "seq", Body: seqBody},
 		&simrt.Harness{Name: "conc", Body: concBody},
+		&simrt.Harness{Name: "sharedbatch", Body: sharedBatchBody},
 	)
 }
 
